@@ -944,10 +944,42 @@ def warping_path(from_s, to_s, include_distance=False, use_ndim=False, **kwargs)
     _, result_fn, _ = innerdistance.inner_dist_fns(s.inner_dist, use_ndim=use_ndim)
     # Trace back in the internal representation, such that the penalty can be taken into account
     dist, paths = warping_paths(from_s, to_s, use_ndim=use_ndim, keep_int_repr=True, psi_neg=True, **kwargs)
-    path = best_path(paths, penalty=s.adj_penalty)
+    _, psi_1e, _, psi_2e = s.split_psi()
+    row, col = _psi_end_cell(paths, psi_1e, psi_2e)
+    path = best_path(paths, row=row, col=col, penalty=s.adj_penalty)
     if include_distance:
         return path, result_fn(dist)
     return path
+
+
+def _psi_end_cell(paths, psi_1e=None, psi_2e=None):
+    """Cell in which the best path ends, given a warping paths matrix in which the cells skipped by
+    the psi-relaxation at the end of the series are marked with -1 (see psi_neg).
+
+    The marked cells are a run in the last column or in the last row, starting in the lower right
+    corner. If only the corner is marked, the relaxation settings (if given) decide whether the path
+    ends in the last column or in the last row; otherwise the smallest neighbour is used.
+    """
+    i = int(paths.shape[0] - 1)
+    j = int(paths.shape[1] - 1)
+    if paths[i, j] != -1:
+        return i, j
+    # Row 0 and column 0 are the borders of the matrix, a path cannot end there
+    if i > 1 and paths[i - 1, j] == -1:
+        di, dj = 1, 0
+    elif j > 1 and paths[i, j - 1] == -1:
+        di, dj = 0, 1
+    elif j <= 1 or (psi_2e is not None and psi_2e == 0):
+        di, dj = 1, 0
+    elif i <= 1 or (psi_1e is not None and psi_1e == 0):
+        di, dj = 0, 1
+    elif paths[i - 1, j] <= paths[i, j - 1]:
+        di, dj = 1, 0
+    else:
+        di, dj = 0, 1
+    while i - di >= 1 and j - dj >= 1 and paths[i, j] == -1:
+        i, j = i - di, j - dj
+    return i, j
 
 
 def warping_path_fast(from_s, to_s, include_distance=False, **kwargs):
@@ -1053,14 +1085,20 @@ def best_path(paths, row=None, col=None, use_max=False, penalty=0):
         argm = argmax
     else:
         argm = argmin
-    if row is None:
-        i = int(paths.shape[0] - 1)
+    if row is None and col is None:
+        # Cells marked with -1 (psi-relaxation) are skipped along the last column or last row.
+        # Comparing values with them would allow to leave that line diagonally and miss the
+        # cell in which the best path ends.
+        i, j = _psi_end_cell(paths)
     else:
-        i = row
-    if col is None:
-        j = int(paths.shape[1] - 1)
-    else:
-        j = col
+        if row is None:
+            i = int(paths.shape[0] - 1)
+        else:
+            i = row
+        if col is None:
+            j = int(paths.shape[1] - 1)
+        else:
+            j = col
     p = []
     if paths[i, j] != -1:
         p.append((i - 1, j - 1))
@@ -1085,9 +1123,7 @@ def best_path2(paths):
     """Compute the optimal path from the nxm warping paths matrix."""
     m = paths
     path = []
-    r, c = m.shape
-    r -= 1
-    c -= 1
+    r, c = _psi_end_cell(m)
     v = m[r, c]
     if v != -1:
         path.append((r - 1, c - 1))
